@@ -23,7 +23,40 @@ def opaque_classes():
 
     return {"PositiveFloat": jt.PositiveFloat, "PositiveInt": jt.PositiveInt, "ClosedUnitInterval": jt.ClosedUnitInterval,
             "NonNegativeInt": jt.NonNegativeInt, "Decimal": decimal.Decimal, "Email": jt.Email, "NotEmptyStr": jt.NotEmptyStr,
-            "StrColor": str_color()}
+            "StrColor": str_color(), "Picky": picky()}
+
+
+_picky = []
+
+
+def picky():
+    """a user-registered type whose deserializer fails with exceptions of many kinds (a Union must treat each as 'this member
+    does not accept')"""
+    if not _picky:
+        from jsonargparse.typing import register_type
+
+        class Picky:
+            def __init__(self, s):
+                self.s = s
+
+        def load(v):
+            if isinstance(v, Picky):
+                return v
+            if isinstance(v, str) and v.startswith("p"):
+                return Picky(v)
+            if isinstance(v, bool):
+                raise RuntimeError("no bools")
+            if v is None:
+                raise AttributeError("no None")
+            if v == "" or v == [] or v == {}:
+                raise IndexError("empty")
+            if isinstance(v, int):
+                raise LookupError("no ints")
+            raise ValueError("not a Picky: %r" % (v,))
+
+        register_type(Picky, serializer=lambda x: x.s, deserializer=load)
+        _picky.append(Picky)
+    return _picky[0]
 
 
 _str_color = []
@@ -51,6 +84,8 @@ def opaque_json(x):
                 return ["opaque", name, str(x)]
             if isinstance(x, enum.Enum):
                 return ["opaque", name, x.name]
+            if name == "Picky":
+                return ["opaque", name, x.s]
             if isinstance(x, str):
                 return ["opaque", name, str(x)]
     return None
@@ -114,8 +149,17 @@ def mk_val(v):
     raise ValueError("value kind " + k)
 
 
+def fresh():
+    """typing caches subscriptions by EQUALITY of the arguments (Union[a, b] == Union[b, a]): without this, the second of two
+    Unions with the same members inside one hint silently gets the order of the first"""
+    for f in typing._cleanups:
+        f()
+
+
 def mk_ty(t):
     k = t[0]
+    if k in ("lit", "union", "list", "dict", "tuple", "tuplevar", "set"):
+        fresh()
     if k in ("str", "int", "float", "bool"):
         return {"str": str, "int": int, "float": float, "bool": bool}[k]
     if k == "none":
@@ -127,17 +171,29 @@ def mk_ty(t):
     if k == "enum":
         return enum_cls(t[1], t[2])
     if k == "union":
-        return Union[tuple(mk_ty(x) for x in t[1])]
+        args = tuple(mk_ty(x) for x in t[1])
+        fresh()
+        return Union[args]
     if k == "list":
-        return List[mk_ty(t[1])]
+        a = mk_ty(t[1])
+        fresh()
+        return List[a]
     if k == "dict":
-        return Dict[str if t[1] == "str" else int, mk_ty(t[2])]
+        a = mk_ty(t[2])
+        fresh()
+        return Dict[str if t[1] == "str" else int, a]
     if k == "tuple":
-        return Tuple[tuple(mk_ty(x) for x in t[1])]
+        args = tuple(mk_ty(x) for x in t[1])
+        fresh()
+        return Tuple[args]
     if k == "tuplevar":
-        return Tuple[mk_ty(t[1]), ...]
+        a = mk_ty(t[1])
+        fresh()
+        return Tuple[a, ...]
     if k == "set":
-        return Set[mk_ty(t[1])]
+        a = mk_ty(t[1])
+        fresh()
+        return Set[a]
     raise ValueError("type kind " + k)
 
 
@@ -206,10 +262,14 @@ def to_json(x):
 def run_query(q):
     from jsonargparse import ArgumentError, ArgumentParser
 
-    for f in typing._cleanups:   # typing caches List[Union[a, b]] == List[Union[b, a]] as ONE object
-        f()
-    th = mk_ty(q["ty"])
-    check_ty(q["ty"], th)
+    # building the typing object and the input is harness work: a failure here is NOT an observation of the implementation
+    try:
+        fresh()
+        th = mk_ty(q["ty"])
+        check_ty(q["ty"], th)
+        pyval = None if q["ch"] == "argv" else mk_val(q["val"])
+    except Exception as e:   # noqa
+        return ["skip", "%s: %s" % (type(e).__name__, str(e)[:200])]
     p = ArgumentParser(exit_on_error=False)
     try:
         p.add_argument("--k", type=th)
@@ -219,7 +279,7 @@ def run_query(q):
         if q["ch"] == "argv":
             r = p.parse_args(["--k=" + q["val"][1]])
         else:
-            r = p.parse_object({"k": mk_val(q["val"])})
+            r = p.parse_object({"k": pyval})
     except ArgumentError:
         return ["rej"]
     except SystemExit as e:
@@ -234,22 +294,27 @@ def run_xquery(q):
     from jsonargparse import ArgumentError, ArgumentParser
 
     install_recorder()
-    for f in typing._cleanups:
-        f()
-    oc = opaque_classes()
-    hints = [oc[m[1]] if m[0] == "opq" else mk_ty(m) for m in q["ms"]]
-    for m, h in zip(q["ms"], hints):
-        if m[0] != "opq":
-            check_ty(m, h)
-    if len(hints) == 1:
-        th = hints[0]
-    else:
-        th = Union[tuple(hints)]
-        args = getattr(th, "__args__", ())
-        if len(args) != len(hints) or any(a is not h and a != h for a, h in zip(args, hints)):
-            raise ValueError("typing changed the Union %r -> %r" % (q["ms"], th))
+    try:
+        fresh()
+        oc = opaque_classes()
+        hints = [oc[m[1]] if m[0] == "opq" else mk_ty(m) for m in q["ms"]]
+        for m, h in zip(q["ms"], hints):
+            if m[0] != "opq":
+                check_ty(m, h)
+        if len(hints) == 1:
+            th = hints[0]
+        else:
+            fresh()
+            th = Union[tuple(hints)]
+            args = getattr(th, "__args__", ())
+            if len(args) != len(hints) or any(a is not h and a != h for a, h in zip(args, hints)):
+                raise ValueError("typing changed the Union %r -> %r" % (q["ms"], th))
+        pyval = None if q["ch"] == "argv" else mk_val(q["val"])
+        pydflt = None if q.get("dflt") is None else mk_val(q["dflt"])
+    except Exception as e:   # noqa
+        return ["skip", "%s: %s" % (type(e).__name__, str(e)[:200])]
     p = ArgumentParser(exit_on_error=False)
-    kw = {} if q.get("dflt") is None else {"default": mk_val(q["dflt"])}
+    kw = {} if q.get("dflt") is None else {"default": pydflt}
     try:
         p.add_argument("--k", type=th, **kw)
     except BaseException as e:   # noqa
@@ -258,7 +323,7 @@ def run_xquery(q):
         if q["ch"] == "argv":
             r = p.parse_args(["--k=" + q["val"][1]])
         else:
-            r = p.parse_object({"k": mk_val(q["val"])})
+            r = p.parse_object({"k": pyval})
     except ArgumentError:
         return ["rej"]
     except SystemExit as e:
@@ -334,9 +399,15 @@ def main():
     req = json.load(sys.stdin)
     members_of = req.get("enums", {})
     obs = []
+    def guarded(f, *a):
+        # last resort: a harness-side error while observing ONE query must not take the batch down
+        try:
+            return f(*a)
+        except Exception as e:   # noqa
+            return ["skip", "runner: %s: %s" % (type(e).__name__, str(e)[:200])]
+
     for q in req.get("queries", []):
-        q = dict(q, val=fix_enum_vals(q["val"], members_of))
-        obs.append(run_query(q))
+        obs.append(guarded(lambda q: run_query(dict(q, val=fix_enum_vals(q["val"], members_of))), q))
     # the loader oracle needs a parser context for nothing: yaml_load is context free
     orc = {}
     todo = list(req.get("strings", []))
@@ -347,11 +418,11 @@ def main():
                 orc[s] = oracle(s)
                 strs_in(orc[s], nxt)
         todo = nxt
-    groups = [run_group(dict(g, val=fix_enum_vals(g["val"], members_of))) for g in req.get("groups", [])]
+    groups = [guarded(lambda g: run_group(dict(g, val=fix_enum_vals(g["val"], members_of))), g) for g in req.get("groups", [])]
     xobs = []
     for xq in req.get("xqueries", []):    # each: a list of queries sharing one record of opaque-member behaviour
         del REC[:]
-        res = [run_xquery(q) for q in xq]
+        res = [guarded(run_xquery, q) for q in xq]
         xobs.append({"obs": res, "rec": list(REC)})
     sys.stdout.write("\n" + json.dumps({"obs": obs, "oracle": orc, "groups": groups, "xobs": xobs}) + "\n")
 
